@@ -183,7 +183,7 @@ Qed.
 Definition st_item (nm : ident) (fl : list tfdef) : item :=
   let bfl := map btf fl in
   {| it_toks := tstruct_toks (ibytes nm) bfl; it_need := fsum bfl + 3; it_fneed := fsum bfl + 4;
-     it_upd := fun f => add_struct f (tstruct_of (ibytes nm) bfl); it_text := tstruct_text (ibytes nm) bfl |}.
+     it_upd := fun f => add_struct f (tstruct_of (ibytes nm) bfl); it_text := tstruct_text (ibytes nm) bfl; it_blank := true |}.
 Definition ocuL : lexeme := T1 123%N kOpenCu.
 Definition ccuL : lexeme := T1 125%N kCloseCu.
 Definition st_x (nm : ident) (fl : list tfdef) : xitem :=
@@ -198,7 +198,7 @@ Proof.
   intros Hn Hf. pose proof (keys_of fl Hf) as Hk. constructor.
   - intros g f tail c. cbn [st_item it_need it_toks it_upd]. exists (fsum (map btf fl) + S g). split; [lia|].
     replace (fsum (map btf fl) + 3 + g) with (S (fsum (map btf fl) + S (S g))) by lia. apply (top_tstruct _ _ _ _ _ _ Hk).
-  - intros g out nl tail c. cbn [st_item it_fneed it_toks it_text]. exists (fsum (map btf fl) + S (S g)). split; [lia|].
+  - intros g out nl tail c. cbn [st_item it_fneed it_toks it_text it_blank]. rewrite andb_true_r. exists (fsum (map btf fl) + S (S g)). split; [lia|].
     replace (fsum (map btf fl) + 4 + g) with (S (S (fsum (map btf fl) + S (S g)))) by lia. apply fmt_top_tstruct.
   - cbn [st_x x_lex st_item it_toks]. unfold tstruct_toks. rewrite !map_app. cbn [map]. rewrite (tok_of_Wi nm Hn).
     rewrite (pf_toks tfield_lex btf tfield_toks tfdef_ok tf_toks fl Hf). reflexivity.
@@ -265,7 +265,7 @@ Qed.
 Definition mt_item (nm : ident) (fl : list tmfdef) : item :=
   let bfl := map btm fl in
   {| it_toks := tmessage_toks (ibytes nm) bfl; it_need := fsum (map snd bfl) + 3; it_fneed := fsum (map snd bfl) + 4;
-     it_upd := fun f => add_message f (tmessage_of (ibytes nm) bfl); it_text := tmessage_text (ibytes nm) bfl |}.
+     it_upd := fun f => add_message f (tmessage_of (ibytes nm) bfl); it_text := tmessage_text (ibytes nm) bfl; it_blank := true |}.
 Definition mt_x (nm : ident) (fl : list tmfdef) : xitem :=
   {| x_lex := [kwM; Wi nm; ocuL; NLx] ++ flat_map tmfield_lex fl ++ [ccuL; NLx];
      x_lay := [([], kwM); (sp, Wi nm); (sp, ocuL); ([], NLx)] ++ flat_map tmfield_layout fl ++ [([], ccuL); ([], NLx)] |}.
@@ -275,7 +275,7 @@ Proof.
   intros Hn Hf Hm. constructor.
   - intros g f tail c. cbn [mt_item it_need it_toks it_upd]. exists (fsum (map snd (map btm fl)) + S g). split; [lia|].
     replace (fsum (map snd (map btm fl)) + 3 + g) with (S (fsum (map snd (map btm fl)) + S (S g))) by lia. apply (top_tmessage _ _ _ _ _ _ Hm).
-  - intros g out nl tail c. cbn [mt_item it_fneed it_toks it_text]. exists (fsum (map snd (map btm fl)) + S (S g)). split; [lia|].
+  - intros g out nl tail c. cbn [mt_item it_fneed it_toks it_text it_blank]. rewrite andb_true_r. exists (fsum (map snd (map btm fl)) + S (S g)). split; [lia|].
     replace (fsum (map snd (map btm fl)) + 4 + g) with (S (S (fsum (map snd (map btm fl)) + S (S g)))) by lia. apply fmt_top_tmessage.
   - cbn [mt_x x_lex mt_item it_toks]. unfold tmessage_toks. rewrite !map_app. cbn [map]. rewrite (tok_of_Wi nm Hn).
     rewrite (pf_toks tmfield_lex btm tmfield_toks tmfdef_ok tmf_toks fl Hf). reflexivity.
@@ -339,7 +339,7 @@ Qed.
 Definition rt_item (nm : ident) (fl : list tfdef) : item :=
   let bfl := map btf fl in
   {| it_toks := readonlyT :: tstruct_toks (ibytes nm) bfl; it_need := fsum bfl + 3; it_fneed := fsum bfl + 5;
-     it_upd := fun f => add_struct f (tstruct_of_ro (ibytes nm) bfl); it_text := tro_text (ibytes nm) bfl |}.
+     it_upd := fun f => add_struct f (tstruct_of_ro (ibytes nm) bfl); it_text := tro_text (ibytes nm) bfl; it_blank := true |}.
 Definition rt_x (nm : ident) (fl : list tfdef) : xitem :=
   {| x_lex := kwRO :: x_lex (st_x nm fl); x_lay := ([], kwRO) :: (sp, kwS) :: tl (x_lay (st_x nm fl)) |}.
 
@@ -348,7 +348,7 @@ Proof.
   intros Hn Hf. pose proof (st_item_ok nm fl Hn Hf) as Hs. pose proof (keys_of fl Hf) as Hk. constructor.
   - intros g f tail c. cbn [rt_item it_need it_toks it_upd]. exists (fsum (map btf fl) + S g). split; [lia|].
     replace (fsum (map btf fl) + 3 + g) with (S (fsum (map btf fl) + S (S g))) by lia. apply (top_tstruct_ro _ _ _ _ _ _ Hk).
-  - intros g out nl tail c. cbn [rt_item it_fneed it_toks it_text]. exists (fsum (map btf fl) + S (S g)). split; [lia|].
+  - intros g out nl tail c. cbn [rt_item it_fneed it_toks it_text it_blank]. rewrite andb_true_r. exists (fsum (map btf fl) + S (S g)). split; [lia|].
     replace (fsum (map btf fl) + 5 + g) with (S (S (S (fsum (map btf fl) + S (S g))))) by lia. apply fmt_top_tstruct_ro.
   - cbn [rt_x x_lex rt_item it_toks map]. rewrite (ok_toks _ _ Hs). reflexivity.
   - cbn [rt_x x_lex]. constructor; [cbn [lex_ok kwRO]; split; [reflexivity|repeat constructor]|exact (ok_lex _ _ Hs)].
